@@ -855,8 +855,8 @@ func evalMemberMethodExpr(vm *r.VM, expr *syntax.MemberMethodExpr) (r.Element, e
 			return nil, err
 		}
 
-		// bind yield result
-		if err := vm.DeclareElement(vtag, vlast); err != nil {
+		// bind yield result (a constant, as after a plain method call)
+		if err := vm.DeclareConstElement(vtag, vlast); err != nil {
 			return nil, err
 		}
 	}
